@@ -157,7 +157,8 @@ class RefExec:
         self.tape = tape
         self.stream = stream
         self.faults = faults or {}  # path -> kind
-        self.k = dict(null_pct=12, max_list=3, budget=160, decoy_pct=60, type_as_object_pct=0, long_list_pct=0, mid_list_pct=0)
+        self.k = dict(null_pct=12, max_list=3, budget=160, decoy_pct=60, type_as_object_pct=0, long_list_pct=0, mid_list_pct=0,
+                      skip_null_excludes=False)
         if knobs:
             self.k.update(knobs)
         self.frags = doc.fragments()
@@ -218,10 +219,19 @@ class RefExec:
         return v[1]
 
     def included(self, sel):
+        """CollectFields, literally: skipped when @skip's `if` is true; excluded when @include's `if`
+        is not true.  (`if` can only be null through a nullable variable with a default that was given
+        an explicit null.)  Knob skip_null_excludes models the engine's recorded deviation: a null `if`
+        drops the selection whichever the directive."""
         for d in sel.directives:
-            if d.name == "skip" and self.dir_value(d) is True:
+            v = self.dir_value(d)
+            if v is None and d.name in ("skip", "include"):
+                self.plan.probe("if_null_on_" + d.name)
+                if self.k.get("skip_null_excludes"):
+                    return False
+            if d.name == "skip" and v is True:
                 return False
-            if d.name == "include" and self.dir_value(d) is False:
+            if d.name == "include" and v is not True:
                 return False
         return True
 
